@@ -204,6 +204,8 @@ func (d *c19DB) runCase(cs c19Case) (problem string, nontrivial bool, desc strin
 			line = fs[0]
 		case "barequote":
 			line = "ab\"cd" + string(cs.sep) + line
+		case "quote-then-text":
+			line = "\"Per\"son" + string(cs.sep) + line // text after the closing quote of a quoted field
 		case "unterminated":
 			line = "\"never closed" + string(cs.sep) + line
 		}
@@ -409,6 +411,7 @@ func runC19(env *lib.Env, rep *lib.Report) {
 			alphabet = append(alphabet, c19Record{fields: append([]string{}, valid...), defect: "short"})
 		}
 		alphabet = append(alphabet, c19Record{fields: append([]string{}, valid...), defect: "barequote"})
+		alphabet = append(alphabet, c19Record{fields: append([]string{}, valid...), defect: "quote-then-text"})
 		unterminated := c19Record{fields: append([]string{}, valid...), defect: "unterminated"}
 		ident := make([]int, len(types))
 		for i := range ident {
